@@ -443,6 +443,18 @@ def serve_returncode():
                         ok_handler = True
     out.append(("scan/serve_returncode/invalid_target_is_failed", ok_handler,
                 "except GraphError around reconcile_targets returns ServeResult(returncode=ReturnCode.FAILED)"))
+    # the targets are judged against the graph of THIS run: reconcile_targets comes after the boot / resume step (which
+    # makes the steps of a changed plan, changed inputs, variables and failed steps PENDING: a forbidden-state target is
+    # tolerated only if a PENDING step sits in its creator chain) and before the build starts
+    def first_line(name):
+        lines = [c.lineno for c in ast.walk(node) if isinstance(c, ast.Call)
+                 and (getattr(c.func, "attr", None) == name or getattr(c.func, "id", None) == name)]
+        return min(lines) if lines else None
+
+    rec, boot, resume, run = (first_line(n) for n in ("reconcile_targets", "initialize_boot", "resume_from_db", "_run_tasks"))
+    ok_order = None not in (rec, boot, resume, run) and boot < rec and resume < rec < run
+    out.append(("scan/serve_returncode/targets_are_reconciled_after_resume", ok_order,
+                f"lines in serve(): initialize_boot {boot}, resume_from_db {resume}, reconcile_targets {rec}, _run_tasks {run}"))
     last = [s for s in node.body if isinstance(s, ast.Return)]
     ok_last = bool(last) and "returncode=handler.builder.returncode" in ast.unparse(last[-1].value)
     out.append(("scan/serve_returncode/builder_code_is_returned", ok_last, "final return passes handler.builder.returncode"))
